@@ -192,7 +192,7 @@ def patched(rec: Recorder):
         # interaction_matrix(t) query (the recorder encodes the version of the matrix in its values)
         n = interaction_matrix.shape[0]
         if n >= 2:
-            used = int(round(float(interaction_matrix[0, 1]))) - 1
+            used = int(round(float(interaction_matrix.max()))) - 1   # max entry: invariant under qubit permutations
             if used != rec.matrix_version:
                 rec.stale_makeH.append((used, rec.matrix_version, len(rec.events)))
         return FakeH(interaction_matrix.shape[0])
@@ -251,6 +251,9 @@ def build_case_objects(case, rec: Recorder, observables=None):
     def interaction_matrix(t):
         # query 0 is made by __init__ when reordering is on (it is off here); the first real query is
         # init_noiseless_hamiltonian, every later one is timestep_complete, whose answer is scripted
+        if case.get("perm") is not None and not getattr(rec, "init_query_seen", False):
+            rec.init_query_seen = True      # MPSBackendImpl.__init__ asks for the matrix once to choose the qubit order
+            return base.clone()
         q = rec.queries
         rec.queries += 1
         if q >= 1 and q - 1 < len(rec.changes) and rec.changes[q - 1]:
@@ -271,7 +274,7 @@ def build_case_objects(case, rec: Recorder, observables=None):
     with warnings.catch_warnings():
         warnings.simplefilter("ignore")
         config = emu_mps.MPSConfig(
-            observables=observables or [], optimize_qubit_ordering=False, autosave_dt=10 ** 9,
+            observables=observables or [], optimize_qubit_ordering=case.get("perm") is not None, autosave_dt=10 ** 9,
             log_level=logging.CRITICAL,
             solver=Solver.DMRG if case["kind"] == "DMRG" else Solver.TDVP)
     return data, config
@@ -305,7 +308,16 @@ def _run_impl(case, observables=None):
         try:
             data, config = build_case_objects(case, rec, observables)
             kw = {}
-            impl = M.create_impl(data, config)
+            if case.get("perm") is not None:
+                import emu_mps.optimatrix as _optimat
+                _saved_mb = _optimat.minimize_bandwidth
+                _optimat.minimize_bandwidth = lambda *a, **k: torch.tensor(case["perm"])
+                try:
+                    impl = M.create_impl(data, config)
+                finally:
+                    _optimat.minimize_bandwidth = _saved_mb
+            else:
+                impl = M.create_impl(data, config)
             if case["kind"] == "DMRG":
                 impl.energy_tolerance = case["etol"]
                 impl.max_sweeps = case["maxsw"]
@@ -358,6 +370,12 @@ def _run_impl(case, observables=None):
                 mark = len(rec.events)
                 n += 1
                 snaps.append(snapshot(impl))
+                held = getattr(impl, "current_interaction_matrix", None)
+                if held is not None and held.numel() > 1 and float(held.max()) > 0:
+                    hv = int(round(float(held.max()))) - 1
+                    if hv != rec.matrix_version and len(rec.stale_makeH) < 5:
+                        # the matrix the Hamiltonian is built from is not the one returned by the latest query
+                        rec.stale_makeH.append((hv, rec.matrix_version, len(rec.events)))
             return dict(outcome="finished", snapshots=snaps, events=rec.events, impl=impl,
                         norm_log=rec.norm_log, stale_makeH=rec.stale_makeH, rescaled=rec.rescaled)
         except tuple(ERR_CLASS) as ex:
@@ -491,6 +509,15 @@ def gen_case(rng, kind, malformed=False):
         else:
             case["osame"] = case["osame"][:-1]
         case["malformed"] = how
+    if n >= 2 and rng.random() < 0.4:
+        # run with qubit reordering on and a forced non-identity internal order: the stepping logic must not depend on it
+        perm = list(range(n))
+        for _ in range(50):
+            rng.shuffle(perm)
+            if perm != list(range(n)):
+                break
+        if perm != list(range(n)):
+            case["perm"] = perm
     return case
 
 
